@@ -16,6 +16,7 @@ def remote_self(I: Interp, st: State, prog: Program, on_off_type: Optional[bool]
     ci = prog.cls(f"{REMOTES}:SwitcherBreezeRemote")
     wave = st.alloc(HeapObj("dict", None, {}, [], True, "self._ir_wave_map", False))
     feats = st.alloc(HeapObj("dict", None, {}, [], True, "self._modes_features", False))
+    ci.require_attrs(["_min_temp", "_max_temp", "_on_off_type", "_remote_id", "_ir_wave_map", "_modes_features", "_separated_swing_command"], "symbolic remote")
     return st.alloc(HeapObj("obj", ci, {
         "_min_temp": ("sym", "min_temp", "int"),
         "_max_temp": ("sym", "max_temp", "int"),
